@@ -2,7 +2,10 @@
 
 package metrics
 
-import "fmt"
+import (
+	"fmt"
+	"time"
+)
 
 // VerifPreimage returns the bytes GetTSID hashed (valid right after GetTSID).
 func (th *TagsHolder) VerifPreimage() []byte {
@@ -35,4 +38,19 @@ func VerifSegKeys() []string {
 		out = append(out, fmt.Sprintf("%s%d", ms.metricsKeyBase, ms.Suffix))
 	}
 	return out
+}
+
+// VerifAgeTagsTreeHolders makes every tags tree holder look d older (CheckAndRotate moves a holder that is more than
+// 24 hours old to a new directory at a size-based segment rotation; a check cannot wait a day).
+func VerifAgeTagsTreeHolders(d time.Duration) int {
+	orgMetricsAndTagsLock.RLock()
+	defer orgMetricsAndTagsLock.RUnlock()
+	n := 0
+	for _, mt := range OrgMetricsAndTags {
+		for _, tt := range mt.TagHolders {
+			tt.createdTime = tt.createdTime.Add(-d)
+			n++
+		}
+	}
+	return n
 }
